@@ -53,6 +53,26 @@ func runC08(c *run.Ctx) {
 		}
 		diff := Compare(exp, out, CompareOpts{StripFragSeg: true})
 		if diff == "" {
+			if i%3 == 0 {
+				// more requests on the SAME root and data: what one request taught ggql about the Go types (objects of one
+				// object type may come in two Go types, under object-typed and under abstract-typed fields) must not change
+				// what the next one - or the first one, asked again - is answered
+				steps := []*gen.DocCase{}
+				for k := 0; k < 2; k++ {
+					steps = append(steps, gen.Doc(r, ec.S, gen.DocOpts{Frags: true, Aliases: true, Abstract: true, Depth: 2 + r.Intn(3), MaxOps: 1}))
+				}
+				steps = append(steps, ec.DC)
+				for si, dc := range steps {
+					text := dc.Doc.Print(model.LayoutN(i + si))
+					e2 := ref.Execute(ec.S, dc.Doc, dc.OpName, dc.Vars, ec.G, nil, ref.Flags{})
+					o2 := Do(h, Request{Text: text, OpName: dc.OpName, Vars: dc.Vars, Entry: i + si}, nil)
+					c.Count("further_requests_on_a_warm_root", 1)
+					if d2 := Compare(e2, o2, CompareOpts{StripFragSeg: true}); d2 != "" {
+						c.Violation("c08-history", ec.replay(kind, dc.OpName, map[string]interface{}{"step": si + 2, "first_request": ec.Text, "document": text, "diff": d2, "expected": e2.Describe(), "observed": o2.Describe()}))
+						break
+					}
+				}
+			}
 			continue
 		}
 		// open findings: the whole response must equal the defect model's prediction
